@@ -344,6 +344,15 @@ def lineText (W : Nat) (l : SLine) : Bytes :=
     if sp.text.isEmpty then (List.replicate sp.width (encodeRune sp.rune)).flatten else sp.text
   t ++ List.replicate (W - sumWidths l.spans) 0x20
 
+
+/-- `renderLineANSI(y)`: in front of every run the complete escape of its attributes
+    (`Style.ANSIEscape`: reset, modes, colours), then its text -/
+def lineANSI (l : SLine) : Bytes :=
+  l.spans.flatMap fun sp =>
+    if sp.width = 0 then [] else
+    sp.sty.ansiEscape ++
+      (if sp.text.isEmpty then (List.replicate sp.width (encodeRune sp.rune)).flatten else sp.text)
+
 /-! ### invariant (decidable) -/
 
 /-- a stored text tokenises completely, into characters whose widths sum to `w` -/
